@@ -342,6 +342,18 @@ package virtual
 //@   props C16
 //@   ensures only-status: r0 == StatusOK || r0 == StatusErrStale
 
+// Hard-link counts in front of the file (FUSE handle allocator): a refused
+// link leaves the count alone, a granted link adds exactly one, and the
+// underlying file is unlinked exactly when the count reaches zero. delta(c):
+// net change this call made to atomic counter c (/verif/stubs/atomic.spec).
+//@ func (*fuseStatefulLinkableLeaf).Link
+//@   props C16
+//@   at call Load#1 assume_post r0 < MaxUint32 -- a file does not have 2^32 hard links
+//@   loop 0 invariant delta(&l.linkCount) == old(delta(&l.linkCount)) && l == old(l)
+//@   ensures a-refused-link-leaves-the-count-alone: r0 != StatusOK ==> delta(&l.linkCount) == old(delta(&l.linkCount))
+//@   ensures a-granted-link-adds-one: r0 == StatusOK ==> delta(&l.linkCount) == old(delta(&l.linkCount)) + 1
+//@   ensures stale-or-ok: r0 == StatusOK || r0 == StatusErrStale
+
 // Contents only change while no frozen reader exists, and every change
 // invalidates the cached digest.
 //@ func (*fileBackedFile).lockMutatingData
